@@ -1,6 +1,7 @@
-(* extraction of the C10 run-time monitor model (what the strace oracle accepts); ExtrOcamlBasic only *)
+(* extraction of the C10 run-time monitor model (what the strace oracle accepts) and of the save-path model
+   (where save_dict writes for a file / the user dictionary); ExtrOcamlBasic only *)
 Require Extraction.
 Require Import ExtrOcamlBasic.
-Require Import Base EffectsBase Effects.
+Require Import Base EffectsBase Effects EffectsSave.
 Extraction Language OCaml.
-Extraction "../ocaml/gen/c10_model.ml" run_judge mkcfg loopback_bytes.
+Extraction "../ocaml/gen/c10_model.ml" run_judge mkcfg loopback_bytes file_dict_plan user_dict_plan.
